@@ -39,7 +39,7 @@ PROPS["C10"] = dict(
     level_note="Trusted: system libogg, harness pager. Links come from the bundled encoder. A seekable open with an initial buffer is not generated (documented for streaming use).",
     rule="case = chain + (per path) read-size schedule, request-length schedule, initial-buffer length, sync chunking; non-trivial = at least one path uses a non-constant schedule; "
          "distinct by hash of chain description and tape position",
-    require_labels=["1-byte reads", "initial buffer", "chained (streaming crosses link boundaries)", "ov_read (integer) path"],
+    require_labels=["1-byte reads", "initial buffer", "chained (streaming crosses link boundaries)", "ov_read (integer) path", "ov_read_filter (gain) path", "link starting at a positive granule position"],
     assumptions=["system libogg 1.3.5 is correct"],
 )
 
@@ -113,13 +113,13 @@ PROPS["C01"] = dict(
 PROPS["C17"] = dict(
     engine="rc", engine_name="rc-tape", sources=["props/c17.cpp"], level="exploration", design_ref="3.18", tape_scale=6,
     quick=dict(cases=500), thorough=dict(cases=10000),
-    technique="property-based testing (rapidcheck tapes): twin vorbisfile handles with identical history, one read through ov_read and one through ov_read_float; exact conversion oracle (scale, round to nearest, clip, offset, byte order, interleave)",
+    technique="property-based testing (rapidcheck tapes): twin vorbisfile handles with identical history, one read through ov_read / ov_read_filter (with a non-idempotent gain filter) and one through ov_read_float; exact conversion oracle (filter applied exactly once, scale, round to nearest, clip, offset, byte order, interleave)",
     level_text="Generated chains (encoder links and synthetic links with decoded values from 1e-6 to beyond 1e9, 1..255 channels, 64..4096 blocks) and histories of ov_read calls in all eight (word, signed, endian) formats with buffer lengths "
                "0..65000 (incl. smaller than a frame and not a multiple of a frame), seeks, half rate; every byte returned is compared with the conversion of the twin handle's float sample, the return value must be whole frames <= length, "
                "the position must advance by the frames returned, bytes beyond the return value must be untouched, a buffer below one frame or a non-positive word size must give OV_EINVAL without writing or moving.",
     level_note="Trusted: ov_read_float on the twin handle as the float reference (itself checked bit-exactly against packet-level decode by C07/C10). At an exact .5 tie either neighbour is accepted; NaN samples are skipped.",
     rule="case = chain + history of ov_read calls (format, length), seeks and refused calls; non-trivial = a read whose frames contain both clipped and unclipped samples, or more than 2 channels; distinct by hash of (chain, history)",
-    require_labels=["read with clipped and unclipped samples", "more than 2 channels", "buffer smaller than one frame", "non-positive word size", "format word=1 signed=0 bigendian=0", "format word=2 signed=1 bigendian=1", "format word=2 signed=0 bigendian=1", "half rate", "synthetic (vgen) link"],
+    require_labels=["ov_read_filter with a gain filter", "read with clipped and unclipped samples", "more than 2 channels", "buffer smaller than one frame", "non-positive word size", "format word=1 signed=0 bigendian=0", "format word=2 signed=1 bigendian=1", "format word=2 signed=0 bigendian=1", "half rate", "synthetic (vgen) link"],
     assumptions=["system libogg 1.3.5 is correct"],
 )
 
@@ -169,12 +169,12 @@ PROPS["C12"] = dict(
 
 PROPS["C15"] = dict(
     engine="rc", engine_name="rc-tape", sources=["props/c15.cpp"], level="exploration", design_ref="3.16",
-    quick=dict(cases=150), thorough=dict(cases=6000, fuzz_seconds=120),
+    quick=dict(cases=400), thorough=dict(cases=6000, fuzz_seconds=120),
     technique="property-based testing (rapidcheck tapes): generated argument tuples and vorbis_encode_ctl sequences through all four set-up entry points; oracle on return codes, cleared structures, reported channels/rate, a decodable header triple and a short encode; ASan/UBSan/LSan",
     level_text="Generated channels in [-1,300], rates in [-1,2^31-1] dense around the template boundaries (+-2), qualities incl. out-of-range/NaN/inf, bitrate triples incl. 0, -1, inverted and huge, 0..8 vorbis_encode_ctl requests (all 12 request "
                "numbers, unknown numbers, NULL where defined, values at and beyond each clamp) before and after vorbis_encode_setup_init. Oracle: only documented return codes; failed one-step calls leave vorbis_info all-zero; vorbis_info_clear "
                "twice is safe and leaves zeros; nothing leaks (per-case LeakSanitizer); SET requests after setup_init are refused; success implies the requested channels and rate, legal block sizes, working analysis_init/headerout, headers the "
-               "decoder accepts, and an encode of 0, 1, bs1-1 or 3*bs1+7 samples without memory errors.",
+               "decoder accepts, and an encode of 0, 1, bs1-1, 3*bs1+7 or about 1.3 s of samples without memory errors (RATEMANAGE2_SET also as one-field probes: every other field valid, one at a boundary value).",
     level_note="Trusted: clang sanitizers (UBSan subset of DESIGN 2.1). vorbis_encode_ctl is never called on a cleared vorbis_info or with NULL for GET requests that do not define it (outside the API contract).",
     rule="case = (entry point, channels, rate, quality or bitrate triple, ctl sequence, M, signal); non-trivial = a rejected set-up, or a successful one outside the suite's grid (rate not in the six tested, channels > 8, managed or three-step); distinct by hash of the case description",
     require_labels=["set-up refused", "set-up succeeded", "init_vbr", "init (managed)", "three-step vbr", "three-step managed", "ctl SET accepted before setup_init", "ctl after setup_init", "more than 8 channels", "successful set-up outside the suite's grid", "nominal bitrate at the edge of the accepted interval"],
@@ -227,14 +227,14 @@ PROPS["C05"] = dict(
 PROPS["C06"] = dict(
     engine="rc", engine_name="rc-tape", sources=["props/c06.cpp"], level="exploration", design_ref="3.7",
     quick=dict(cases=300), thorough=dict(cases=4000),
-    technique="property-based testing (rapidcheck tapes): generated signals with a sharp autocorrelation and per-channel distinct content through encode+decode; oracle: argmax of the input/output cross-correlation is lag 0, correlation matrix diagonal-dominant, bounded peak, calibrated SNR floor and metamorphic SNR monotonicity in quality",
-    level_text="Generated configurations (1..8 channels, eight rates, VBR q -0.1..1.0 and managed) and three signal classes with per-channel distinct content, at least 7 long blocks: low-passed noise and click trains (alignment: the lag in "
-               "[-min(bs1,2048), +..] that maximises the cross-correlation must be exactly 0; no permutation: every input channel correlates best with the same-numbered output channel), in-band multitones below 0.8 x the template's lowpass "
-               "(SNR at least a floor that rises with quality; SNR(q+0.4) >= SNR(q) - 3 dB on the same signal). All samples finite; peak(out) <= 3.5 peak(in) + 0.05.",
-    level_note="The peak factor and the SNR floor are calibrated empirical bounds (DESIGN 3.7): a marginal quality regression (a few dB) is below the resolution of this check; delays, channel swaps, sign errors and broadband noise at -20 dB are not.",
-    rule="case = configuration + signal class and parameters + N; non-trivial = input RMS above -40 dBFS and at least 6 long blocks; distinct by hash of the case description",
-    require_labels=["alignment checked (lag 0 is the correlation maximum)", "channel order checked", "SNR checked", "quality monotonicity checked", "class 0", "class 1", "class 2"],
-    assumptions=["calibration table in src/props/c06.cpp"],
+    technique="property-based testing (rapidcheck tapes): generated signals (sharp-autocorrelation noise and clicks, multitones in the lower and in the upper part of the coded band, per-channel distinct content, silent channel subsets, low tones on the LFE channel) through encode+decode; oracle: argmax of the input/output cross-correlation is lag 0, correlation matrix diagonal-dominant, bounded peak, per-channel SNR against a floor calibrated per (mode, rate class, coupling class, template setting, signal class) bucket, metamorphic SNR monotonicity in quality, no sounding channel decodes to silence",
+    level_text="Generated configurations (1..8 channels, eight rates, VBR q -0.1..1.0 and managed) and four signal classes with per-channel distinct content and any subset of channels silent, at least 7 long blocks: low-passed noise and click trains (alignment: the lag in "
+               "[-min(bs1,2048), +..] that maximises the cross-correlation must be exactly 0 whenever that maximum is strong and distinct; no permutation: every sounding input channel correlates best with the same-numbered output channel), multitones below 0.8 x and between 0.56 and 0.94 x the template's lowpass, 40-110 Hz on the LFE channel of the 5.1 set-ups "
+               "(per-channel SNR at least the worst value seen over the calibration runs of the same bucket minus 8 dB, only where that floor is at least 3 dB; SNR(q+0.4) >= SNR(q) - 6 dB on the same signal; a sounding channel never decodes to silence). All samples finite; peak(out) <= 3.5 peak(in) + 0.05.",
+    level_note="The peak factor and the SNR floors are calibrated empirical bounds (src/props/c06_floors.inc, tools/c06_calibrate.py, DESIGN 3.7): a marginal quality regression (a few dB) is below the resolution of this check; delays, channel swaps, sign errors, a channel or band decoded as something else (SNR near 0 dB) and broadband noise at -20 dB are not. Buckets whose calibrated floor is below 3 dB (low settings legitimately discard or merge such content) are undecidable and labelled so.",
+    rule="case = configuration + signal class and parameters + silent mask + N; non-trivial = input RMS above -40 dBFS (or some channels silent) and at least 6 long blocks; distinct by hash of the case description",
+    require_labels=["alignment checked (lag 0 is the correlation maximum)", "channel order checked", "SNR checked", "SNR checked (per channel, calibrated bucket)", "SNR checked (upper band)", "quality monotonicity checked", "class 0", "class 1", "class 2", "class 3", "some channels silent", "silent / sounding channel energies checked"],
+    assumptions=["calibration table src/props/c06_floors.inc (worst SNR per bucket on the unchanged tree)"],
 )
 
 PROPS["C02"] = dict(
